@@ -197,12 +197,43 @@ def rand_sample(rng, bits):
     return rng.randint(lo, hi)
 
 
-def wav_case(bits, channels, keep, samples, rate=44100, take=None, route="path", cut=0):
+def wav_case(bits, channels, keep, samples, rate=44100, take=None, route="path", cut=0, riff=None, bad=None):
     c = {"entry": "wav", "bits": bits, "channels": channels, "keep": keep, "samples": samples,
          "rate": rate, "take": take, "route": route}
     if cut:
         c["cut"] = cut
+    if riff:
+        c["riff"] = riff
+    if bad:
+        c["bad"] = bad
     return c
+
+
+RIFF_NAMES = ["LIST", "fact", "cue ", "junk", "bext", "id3 ", "PAD ", "DATA", "fmt_"]
+
+
+def rand_riff(rng, wild=True):
+    """deviations from the plain 44-byte-header file that the wave module itself cannot write"""
+    r = {}
+    for k in ("pre", "mid", "post"):
+        if rng.random() < 0.45:
+            r[k] = [[rng.choice(RIFF_NAMES), rng.choice([0, 1, 2, 3, 4, 7, 26])] for _ in range(rng.choice([1, 1, 2]))]
+    x = rng.random()
+    if x < 0.25:
+        r["ext"] = True                                 # WAVE_FORMAT_EXTENSIBLE, PCM sub-format
+    elif x < 0.5:
+        r["fmt_extra"] = rng.choice([1, 2, 3, 22])
+    if wild:
+        x = rng.random()
+        if x < 0.15:
+            r["data_delta"] = rng.choice([1, 2, 3, 5, 1000])      # more declared than there is
+        elif x < 0.3:
+            r["data_delta"] = -rng.choice([1, 2, 3])              # less declared: the tail is not audio
+        if rng.random() < 0.12:
+            r["riff_delta"] = rng.choice([1, 8, 1000, -1, -2, -8, -20])
+        if rng.random() < 0.1:
+            r["no_data_pad"] = True
+    return r or {"post": [["LIST", 4]]}
 
 
 def generate(rng, tier, scale=1):
@@ -329,6 +360,32 @@ def generate(rng, tier, scale=1):
         samples = [rand_sample(rng, bits) for _ in range(nf * channels)]
         cut = rng.randint(1, bits // 8 * channels - 1)
         cases.append(wav_case(bits, channels, rng.random() < 0.5, samples, cut=cut))
+    # files the wave module cannot write: extra chunks (LIST ...) around fmt / data, odd sizes, the extensible
+    # format, header bits that are no multiple of 8 or no PCM width, declared sizes that lie, refused files
+    if scale == 1:
+        for bits in (8, 16, 24, 32):
+            for channels in (1, 2):
+                for k, riff in enumerate(({"pre": [["LIST", 3]]}, {"mid": [["fact", 4]], "post": [["LIST", 7]]},
+                                          {"ext": True}, {"fmt_extra": 2}, {"post": [["id3 ", 1]], "no_data_pad": True})):
+                    for nf in (0, 1, 3):
+                        lo, hi = wav_range(bits)
+                        samples = [[lo, hi, 1, hi - 1, lo + 1, 0][i % 6] for i in range(nf * channels)]
+                        cases.append(wav_case(bits, channels, (k + nf) % 2 == 0, samples, riff=riff,
+                                              route=("path", "fileobj", "wave")[(k + nf) % 3]))
+        for bad in c18_res.BADS:
+            cases.append(wav_case(16, 1, True, [1, 2], bad=bad))
+    for _ in range((300 if quick else 4000) * scale):
+        r = rng.random()
+        bits = rng.choice([8, 16, 24, 32]) if r < 0.8 else rng.choice([1, 4, 7, 9, 12, 15, 17, 20, 23, 25, 31, 33, 40, 64])
+        channels = rng.choice([1, 2]) if rng.random() < 0.9 else rng.choice([3, 4])
+        nf = rng.choice([0, 1, 2, rng.randint(0, 12)])
+        samples = [rand_sample(rng, 8 * ((bits + 7) // 8)) if (bits + 7) // 8 <= 4 else rng.randint(-2 ** 39, 2 ** 39 - 1)
+                   for _ in range(nf * channels)]
+        take = None if rng.random() < 0.7 else rng.randint(0, len(samples) + 2)
+        cases.append(wav_case(bits, channels, rng.random() < 0.5, samples, take=take,
+                              rate=rng.choice([8000, 44100, 1, rng.randint(1, 2 ** 32 - 1)]),
+                              route=rng.choice(["path", "fileobj", "wave"]), riff=rand_riff(rng, wild=rng.random() < 0.5),
+                              bad=rng.choice(c18_res.BADS) if rng.random() < 0.06 else None))
     cases.extend(generate_conc(rng, tier, scale))
     cases.extend(generate_res(rng, tier, scale))
     return cases
@@ -356,7 +413,10 @@ def _kind(e):
 
 
 def wav_file_bytes(c):
-    """the complete RIFF file, produced by the standard wave module"""
+    """the complete RIFF file, produced by the standard wave module (or, for the variants the wave module
+    cannot write, by the harness' own writer)"""
+    if c.get("riff") or c.get("bad"):
+        return c18_res.riff_bytes(c)
     buf = io.BytesIO()
     w = wave.open(buf, "wb")
     w.setnchannels(c["channels"])
@@ -507,6 +567,13 @@ def request(c):
         return {"entry": "chunks", "fmt": c["fmt"], "native": NATIVE, "order": ORDER_REQ[c["order"]],
                 "std": c["order"] in STD_ORDERS, "long": LONG,
                 "size": c["size"], "pad": c["pad"], "xs": c["xs"]}
+    if c.get("riff") or c.get("bad"):
+        # the Lean RIFF reader gets the bytes of the file and finds header and data chunk itself
+        r = {"entry": "wav", "bits": c["bits"], "keep": c["keep"], "take": c.get("take"),
+             "file": list(c18_res.riff_bytes(c))}
+        if c18_res.in_property(c):
+            r["samples"] = c["samples"]
+        return r
     data = pcm_bytes(c["bits"], c["samples"])
     if c.get("cut"):
         data = data[: -c["cut"]]
@@ -567,8 +634,12 @@ def compare(c, io_, drv):
                 out.append(("spec", "struct refuses the padded sequence but chunks succeeded"))
         return out
     # wav
-    if "out" not in io_:
-        return [("model", "WavStream could not be opened: " + io_["err"]), ("spec", "open failed")]
+    if "open_err" in drv or "out" not in io_:
+        a, b = io_.get("err") if "out" not in io_ else None, drv.get("open_err")
+        if a == ("open:" + b if b else None):
+            return []
+        return [("model", "opening the file: impl=%s, the Lean RIFF reader=%s" % (a, b))] + (
+            [("spec", "a well-formed file could not be opened")] if c18_res.in_property(c) else [])
     m = drv["model"]
     take = c.get("take")
     mo = m["out"] if take is None else m["out"][:take]
@@ -678,6 +749,14 @@ def tally(eng, c, io_):
         eng.count("wav.has_negative", any(s < 0 for s in c["samples"]))
         eng.count("wav.truncated", bool(c.get("cut")))
         eng.count("wav.malformed", "truncated" if c.get("cut") else "channels>2" if c["channels"] > 2 else "no")
+        r = c.get("riff") or {}
+        eng.count("wav.writer", "own RIFF writer" if (c.get("riff") or c.get("bad")) else "wave module")
+        for k in sorted(r):
+            eng.count("wav.riff_variant", k if k not in ("data_delta", "riff_delta") else k + (">0" if r[k] > 0 else "<0"))
+        if c.get("bad"):
+            eng.count("wav.refused_file", c["bad"])
+        eng.count("wav.header_bits", c["bits"] if c["bits"] in (8, 16, 24, 32) else
+                  "odd->%d" % (8 * ((c["bits"] + 7) // 8)))
         eng.count("wav.impl_err", str(io_.get("err")))
         eng.count("wav.regime", "int-exact" if c["keep"] else "dyadic-float-exact")
 
@@ -1594,8 +1673,8 @@ def request_res(c):
     r = {"entry": "res", "bits": c["bits"], "channels": c["channels"], "rate": c["rate"], "keep": c["keep"],
          "data": list(data), "source": c18_res.MODEL_SRC[c["source"]], "header_ok": not c.get("bad"),
          "pre": c18_res.n_pre(c), "events": c["events"]}
-    if c.get("riff"):
-        r["file"] = list(c18_res.riff_bytes(c))     # the Lean RIFF parser reads the header and the data chunk itself
+    r["header_ok"] = True
+    r["file"] = list(c18_res.riff_bytes(c))         # the Lean RIFF reader finds header and data chunk (or refuses)
     if r["source"] == "refused":
         r["alt_source"] = "name"                    # should the code accept this kind of name: then as a name
     return r
@@ -1669,7 +1748,8 @@ def generate_res(rng, tier, scale=1):
         nf = rng.choice([0, 1, 2, rng.randint(0, 10)])
         n = nf * channels
         samples = [rand_sample(rng, bits) for _ in range(n)]
-        source = rng.choice(c18_res.SOURCES)
+        source = rng.choice(["str", "str", "str", "fileobj", "fileobj", "fileobj_raw", "bytesio", "bytesio", "bytes",
+                             "pathlike"])
         kw = {"spy": rng.random() < 0.6, "others": rng.choice([0, 0, 1, 2]),
               "keep_shape": rng.choice(["pos", "kw", "omit", "allkw"]),
               "rate": rng.choice([8000, 44100, 1, rng.randint(1, 400000)])}
@@ -1682,6 +1762,13 @@ def generate_res(rng, tier, scale=1):
             channels = rng.choice([3, 4])
             samples = [rand_sample(rng, bits) for _ in range(nf * channels)]
             n = len(samples)
+        elif r < 0.48:
+            kw["riff"] = rand_riff(rng, wild=rng.random() < 0.4)
+        elif r < 0.54:                                  # a header width that is no PCM width of the property
+            bits = rng.choice([12, 20, 33, 40, 64])
+            samples = [rng.randint(-100, 100) if bits > 32 else rand_sample(rng, 8 * ((bits + 7) // 8)) for _ in range(max(n, channels))]
+            n = len(samples)
+            kw["riff"] = {"post": []} if rng.random() < 0.5 else rand_riff(rng, wild=False)
         if source == "pathlike":
             kw["pathkind"] = rng.choice(["pathlib", "fspath"])
         if rng.random() < 0.6:
@@ -1696,6 +1783,8 @@ def tally_res(eng, c, io_):
     eng.count("res.source", c["source"])
     eng.count("res.observer", "spy(builtins.open)+/proc/self/fd" if c.get("spy", True) else "/proc/self/fd+ResourceWarning")
     eng.count("res.bits", c["bits"])
+    for k in sorted(c.get("riff") or {}):
+        eng.count("res.riff_variant", k)
     eng.count("res.channels", c["channels"])
     eng.count("res.keep_shape", c.get("keep_shape", "pos") + ("/keep" if c["keep"] else "/norm"))
     eng.count("res.caller_other_handles", c.get("others", 0))
